@@ -6,6 +6,10 @@ props = [json.loads(l) for l in open(os.path.join(V, "properties.jsonl"))]
 ids = [p["id"] for p in props]
 
 CLAIMS = {
+ "C16": dict(cat="other", tech="finite-domain evaluation of the per-tag case bodies of the two hand-written comparison tables (extracted from the AST, libc memcmp/strcmp modelled) over value domains with ties/prefixes; truth-table comparison of the array guards; AST use-def check that list-level code reads arrays only through the range iterator",
+    text="For every scalar tag and every pair/triple of values from a small domain chosen to contain ties, prefixes, zero-extended blobs, NULL strings and the 'immediately' time tag, the extracted case bodies satisfy: eq(l,r) == (cmp(l,r)==0), antisymmetry, the documented order, transitivity, and read only the union member of their tag; the array element-type guards of eq and cmp are the same truth table over all tag pairs; type mismatches are unequal and antisymmetric; eq/cmp/avmessage touch argument arrays only through rtosc_arg_val_itr_*, so range compression cannot be observed by them. The evaluation is exhaustive over the listed finite domains, not over all values; NaN and the iterator's internal arithmetic are not decided.",
+    note="Trusted: clang AST, sa/fdeval.py, memcmp/strcmp models (sign of first difference), the domains in sa/props/C16.py.",
+    ref="DESIGN.md 2 C16"),
  "C06": dict(cat="other", tech="IR access classification of the three ring indices (atomic load/store + ordering, AST check of explicit memory orders), CFG reachability between publish store and buffer copies, call-graph ownership of index stores, dominance of space and MaxMsg guards",
     text="Decides the structural obligations every interleaving relies on: indices are std::atomic and accessed only atomically with acquire/release or stronger order; in ring_write (ring_read) no copy into (out of) the ring buffer is reachable after the index is published (released) and every copy is followed by an index advance; `write` is stored only from the producer API, `read`/`read_lookahead` only from the consumer API; each ring_write call is dominated by the free-space test on the same length and by a MaxMsg bound. A publish-before-copy or release-before-copy reordering - invisible to the single-threaded test - is reported with both lines. Linearizability and the modular index arithmetic are not decided.",
     note="Trusted: clang -O0 IR, sa/irlib.py; assumes one producer and one consumer thread and that seq_cst/acq-rel atomics provide the visibility order.",
